@@ -88,7 +88,7 @@ def run(ctx):
                 'classes (results their dtype set admits), NumPy and Dask data; out= given as signal / array / tuple with None; in-place '
                 'operator chains; reduce / accumulate / outer / at / matmul; np.asarray / np.array with and without dtype. '
                 'non-trivial: all; distinct by (ufunc, arrangement, classes, dtype, out form).')
-    ctx.trusted = ['Coq 8.16.1 kernel (axiom-free)', 'NumPy override protocol: some operand\'s __array_ufunc__ is called with the inputs in '
+    ctx.trusted = ['translator T10 translate/py_ufunc2coq.py (refusal test, reference signal, wrapping rule; other statements pinned)', 'Coq 8.16.1 kernel (axiom-free)', 'NumPy override protocol: some operand\'s __array_ufunc__ is called with the inputs in '
                    'their original order (the model does not depend on which one)']
     ctx.assumptions = ['values are compared bit for bit with the ufunc applied to .data by NumPy itself (the ufunc kernels are not modelled)']
     built = ctx.build(['Props/C17.vo'])
